@@ -725,6 +725,63 @@ func genC17(r *Rng, e *Emitter, n int) {
 			e.emit("C17.call", desc[i], fmt.Sprintf("(m (%d %d %d %d) %s)", len(calls), reps, diffs[i], panicked, sxInts(ch)))
 		}
 	}
+	// cold start: the very first calls of the process are made concurrently, before any solo call
+	// has run, so that one-time initialisation inside the library (a lazily filled table, a cached
+	// value) is itself exercised under concurrency
+	{
+		var calls []*c17Case
+		var args [][]any
+		t := r.wktTree(2, geom.XYZ)
+		g := t.build()
+		for _, c := range geomCases {
+			if c.accept(g) {
+				calls = append(calls, c)
+				args = append(args, []any{g})
+			}
+		}
+		for _, c := range ownCases {
+			if c.root != "geom.(*geom1).Reverse" {
+				calls = append(calls, c)
+				args = append(args, c.gen(r))
+			}
+		}
+		var desc []string
+		for i, c := range calls {
+			parts := make([]string, len(args[i]))
+			for k, x := range args[i] {
+				parts[k] = snapAny(x)
+			}
+			desc = append(desc, fmt.Sprintf("(%s %s)", strings.NewReplacer("(", "[", ")", "]").Replace(c.root), strings.Join(parts, " ")))
+		}
+		e.pending("C17.batch", "(cold-start "+strings.Join(desc, " ")+")")
+		first := make([][]string, len(calls))
+		var wg sync.WaitGroup
+		start := make(chan struct{})
+		for i := range calls {
+			first[i] = make([]string, 4)
+			for k := 0; k < 4; k++ {
+				wg.Add(1)
+				go func(i, k int) {
+					defer wg.Done()
+					<-start
+					first[i][k] = c17Safe(calls[i], args[i])
+				}(i, k)
+			}
+		}
+		close(start)
+		wg.Wait()
+		for i, c := range calls {
+			solo := c17Safe(c, args[i])
+			diff := 0
+			for _, got := range first[i] {
+				if got != solo {
+					diff++
+				}
+			}
+			e.tally("cold:" + c.root)
+			e.emit("C17.call", desc[i], fmt.Sprintf("(m (%d %d %d %d) ())", len(calls), 4, diff, 0))
+		}
+	}
 	for e.count < n {
 		switch {
 		case r.chance(1, 6):
